@@ -41,15 +41,14 @@ META = dict(
           "every event of the alphabet is executed in every state of depth < bound: 6 assignments and 440 "
           "substitutions (11 x 10 ordered atom pairs x 4 portions).  Non-trivial = reached by at least one assignment "
           "of a new value or one substitution whose source is present with portion > 0.  Volumes: all 23 packing "
-          "spellings in every state of depth < bound and in every deepest state with a composition not seen before in "
-          "its graph, volume() alone in the others; the lattice grid (4 lengths, 4 angles, every subset of "
+          "spellings in every state of depth < bound, volume() alone in the deepest states; the lattice grid (4 lengths, 4 angles, every subset of "
           "b, c, alpha, beta, gamma given, 3 call spellings) once per composition."),
     bound=dict(
         quick=("depth 2; compositions: the 11 atoms with count 1 and 2, and 24 two- and three-atom formulas covering "
                "every class pair (natural / isotope / ion / isotope ion / no tabulated density)"),
         thorough=("depth 2 over the 11 atoms with counts 1, 2, 0.5, every unordered pair of atoms as A2B, and the quick "
-                  "list; depth 3 over the quick list with the third event restricted to assignments and to "
-                  "substitutions whose source is present, portions {0.25, 1}")),
+                  "list; depth 3 over the one- and two-atom formulas of the quick list with the third event restricted to "
+                  "assignments and to substitutions whose source is present, portions {0.25, 1}")),
     assumptions=[
         "neutral element / isotope masses, element densities and covalent radii are read from the library (C06, C20); "
         "the electron mass from periodictable.constants",
@@ -177,7 +176,6 @@ class Graph(object):
         for t, c in entries:
             self.comp0[t] = self.comp0.get(t, 0) + c
         self.seen = set()
-        self.seen_atoms = set()
         self.broken = False
 
     # ---- building
@@ -573,7 +571,6 @@ class Graph(object):
                 continue
             self.seen.add(k)
             acc.states += 1
-            self.seen_atoms.add(k[0])
             self.check_packing(st, form, True)    # a wrong volume estimate does not break a density state
             frontier.append((form, st))
         for level in range(1, depth + 1):
@@ -592,9 +589,7 @@ class Graph(object):
                     acc.states += 1
                     if new.nontrivial:
                         acc.nontrivial += 1
-                    new_atoms = k[0] not in self.seen_atoms
-                    self.seen_atoms.add(k[0])
-                    self.check_packing(new, form, (not last) or new_atoms)
+                    self.check_packing(new, form, not last)
                     if acc.states % 30011 == 0:
                         acc.sample(self.case(form, new.hist))
                     if not last:
@@ -616,7 +611,7 @@ def _shard(args):
 def run(ctx):
     quick = ctx.quick
     jobs = []
-    deep = set(comp_text(e) for e in compositions("quick"))
+    deep = set(comp_text(e) for e in compositions("quick") if len(e) <= 2)
     for e in compositions(ctx.tier):
         depth = 2 if quick or comp_text(e) not in deep else 3
         jobs.append((ctx.tier, [list(x) for x in e], depth))
